@@ -84,3 +84,17 @@ Theorem mesh_announced_count_checked : forall bs pts trs,
   12 * Z.of_nat (length pts) <= Z.of_nat (length bs) /\ 12 * Z.of_nat (length trs) <= Z.of_nat (length bs).
 Proof. intros bs pts trs H. apply ReaderCountsProofs.mesh_announced_count_checked in H. tauto. Qed.
 Print Assumptions mesh_announced_count_checked.
+
+(* bnd reader (line-structured tokens, keywords, counts, stream tests -- Geom/ReaderCounts.v, tied by the sweep) *)
+Theorem bnd_announced_count_checked : forall s pts trs,
+  read_bnd s = MOk (pts, trs) ->
+  exists npts ntr : Z,
+    Z.of_nat (length pts) = Z.max 0 npts /\ Z.of_nat (length trs) = Z.max 0 ntr /\
+    3 * Z.max 0 npts + 3 * Z.max 0 ntr + 2 <= Z.of_nat (rtotal s).
+Proof. exact ReaderCountsProofs.bnd_announced_count_checked. Qed.
+Print Assumptions bnd_announced_count_checked.
+
+Theorem bnd_short_file_rejected : forall s pts trs,
+  Z.of_nat (rtotal s) < 3 * Z.of_nat (length pts) + 3 * Z.of_nat (length trs) + 2 -> read_bnd s <> MOk (pts, trs).
+Proof. exact ReaderCountsProofs.bnd_short_file_rejected. Qed.
+Print Assumptions bnd_short_file_rejected.
